@@ -648,6 +648,10 @@ def oracle_buffer(m, spec, res, T):
 
 def oracle_counts(m, spec, res, T):
     viols = []
+    if res.raised and res.raised[0] == 'KeyboardInterrupt' and \
+            any(e.get('exc') == 'KeyboardInterrupt' for e in spec['plan']):
+        # ^C (injected) ended the run with that exception: no totals are claimed, none judged
+        return viols
     if res.raised or res.hang:
         viols.append(C.viol('C12/run-aborted/%s' % frames_sig(res.raised),
                             'no totals: run_internal raised %r' % (res.raised or res.hang,)))
